@@ -134,6 +134,14 @@ def rule_v1(ck, prog, S):
                 if l.get("path") == idxvar and C.const_of(r) is not None and pol:
                     bound = C.const_of(r) + (1 if atom["op"] == "<=" else 0)
                     continue
+                # pointer walk over the table: reg != table + N / reg < table + N
+                rs = r.strip_all_casts()
+                while rs.k == "ParenExpr":
+                    rs = rs.child(0).strip_all_casts()
+                if l.get("path") in (idxvar, "&%s[%s]" % (table, idxvar)) and pol and rs.k == "BinaryOperator" and rs.get("op") == "+" and \
+                        rs.child(0).strip_all_casts().get("path") == table and C.const_of(rs.child(1)) is not None and atom["op"] in ("<", "!="):
+                    bound = C.const_of(rs.child(1))
+                    continue
             # redundant logical wrappers (the && node itself) carry no extra information
             if atom.k == "BinaryOperator" and atom.get("op") in ("&&", "||"):
                 continue
@@ -153,8 +161,11 @@ def rule_v1(ck, prog, S):
                 for dd in d.get("decls", []):
                     if dd["name"] == idxvar and "init" in dd and C.const_of(fn.nodes[dd["init"]]) == 0:
                         start_ok = True
+        if any(n2.get("op") == "=" and n2.child(1).strip_all_casts().get("path") == table for n2, t in idx_stores):
+            start_ok = True           # pointer walk starting at the table's first row
         step_ok = all((n2.k == "UnaryOperator" and n2.get("op") == "++") or
                       (n2.get("op") == "=" and C.const_of(n2.child(1)) == 0) or
+                      (n2.get("op") == "=" and n2.child(1).strip_all_casts().get("path") == table) or
                       (n2.get("op") == "+=" and C.const_of(n2.child(1)) == 1)
                       for n2, t in idx_stores)
         if bound is None or not start_ok or not step_ok:
@@ -619,7 +630,7 @@ def run(ck, fb, tier):
         rule_v1b(ck, prog, S)
         got = K.need(ck, prog, "C12-V2", "SCPI_RegSet")
         if got:
-            model = RegSetModel(got[0])
+            model = RegSetModel(got[0], prog)
             if model.problems:
                 for pr in model.problems:
                     ck.anchor_lost("C12-V2", pr)
